@@ -111,12 +111,13 @@ class SSeq:
 
 
 class SSet:
-    __slots__ = ('pred', 'ek', 'card')
+    __slots__ = ('pred', 'ek', 'card', 'src')
 
-    def __init__(self, pred, ek, card=None):
+    def __init__(self, pred, ek, card=None, src=None):
         self.pred = pred    # Array Int Bool
         self.ek = ek
         self.card = card    # z3 Int or None
+        self.src = src      # the sequence the set was built from (set(list)), if any
 
     def __repr__(self):
         return 'SSet<%s>' % self.ek
